@@ -73,3 +73,23 @@ def yank (s : St) : G St := do
   return { s with line := l, cur := { c with pos := c.pos + s.kill.length } }
 
 end RLV.Kill
+
+namespace RLV.Kill
+open RLV.Core RLV.Sel
+
+/-- Shell.killWholeLine (and killBuffer, the same body) -/
+def killWholeLine (s : St) : G St := do
+  if len s.line = 0 then return s
+  let s1 := write s s.line
+  let l ← Core.cut s1.line 0 (len s1.line)
+  return { s1 with line := l }
+
+/-- Shell.killRegion: the region is cut and the point goes where it was -/
+def killRegion (s : St) : G St := do
+  if !s.sel.active then return s
+  let (b, _, sel1) ← Sel.pos s.line s.sel s.cur
+  let (t, l', sel') ← Sel.cut s.line sel1 s.cur
+  let s1 := write { s with line := l', sel := sel' } t
+  return if b ≥ 0 then { s1 with cur := curSet s1.line s1.cur b } else s1
+
+end RLV.Kill
